@@ -394,27 +394,38 @@ PROBES = (1.0, 7.5)
 
 def registry_full(db, probes=True):
     """Canonical snapshot of everything the database reports, through public getters."""
+    # every getter is guarded: a getter that raises is part of what the database reports (and is
+    # compared as such), never a crash of the harness
     out = {"types": [], "cats": [], "units": []}
     for t in db.GetQuantityTypes():
-        out["types"].append([t, list(db.GetUnits(t)), list(db.GetUnitNames(t)), db.GetBaseUnit(t)])
+        out["types"].append([t, _safe(lambda: list(db.GetUnits(t))), _safe(lambda: list(db.GetUnitNames(t))), _safe(lambda: db.GetBaseUnit(t))])
     for c in db.IterCategories():
         out["cats"].append(
             [
                 c,
-                F.fp(db.GetCategoryInfo(c)),
+                _safe(lambda: F.fp(db.GetCategoryInfo(c))),
                 _safe(lambda: list(db.GetValidUnits(c))),
-                db.GetDefaultUnit(c),
-                F.fp(db.GetDefaultValue(c)),
+                _safe(lambda: db.GetDefaultUnit(c)),
+                _safe(lambda: F.fp(db.GetDefaultValue(c))),
             ]
         )
-    for un in db.GetUnits():
-        row = [un, db.GetQuantityType(un), _safe(lambda: db.GetDefaultCategory(un))]
+    try:
+        all_units = list(db.GetUnits())
+    except Exception as e:
+        all_units = []
+        out["units"].append(["GetUnits", "raises", type(e).__name__])
+    for un in all_units:
+        row = [un, _safe(lambda: db.GetQuantityType(un)), _safe(lambda: db.GetDefaultCategory(un))]
         if probes:
-            t = db.GetQuantityType(un)
-            info = db.GetInfo(t, un)
-            for x in PROBES:
-                row.append(_safe(lambda: F.fp(info.tobase(x))))
-                row.append(_safe(lambda: F.fp(info.frombase(x))))
+            try:
+                info = db.GetInfo(db.GetQuantityType(un), un)
+            except Exception as e:
+                info = None
+                row.append(["raises", type(e).__name__])
+            if info is not None:
+                for x in PROBES:
+                    row.append(_safe(lambda: F.fp(info.tobase(x))))
+                    row.append(_safe(lambda: F.fp(info.frombase(x))))
         out["units"].append(row)
     return out
 
